@@ -147,7 +147,7 @@ func init() {
 		Level: "exploration",
 		Rule: "(a) every byte string of length <= 3 (quick) / <= 4 (thorough) over 22 YAML-significant bytes (incl. 0xFF) as a whole input file and spliced at three anchor points of a valid configuration; (b) 41 schema positions x 30 node shapes (null, bools, numbers, non-finite and overflowing numbers, strings, sequences, mappings with scalar / numeric / sequence keys, anchors and aliases, tags, timestamps, merge keys, block indicators) singly and (thorough: all; quick: every pair involving a composite shape in the first position) in pairs; " +
 			"(c) every glob pattern of length <= 3 (quick) / <= 4 (thorough) over {*, ?, [, ], \\, a, /, ., -, ^}; (c2) 1..100 -i patterns at once (matching nothing, the same file, a file each; next to a valid / an invalid file); (d) all 64 presence combinations of the 6 flags; (e) complete digraphs K2..K5 (thorough K6) as service and as parameter dependency graphs; (e2) layered acyclic graphs of depth 8 / 20 / 40 with 2^depth paths (service arguments, fields + calls, tags, decorators, parameters) x root and leaf scopes; (k) configurations producing exactly n diagnostics for n around 1, 10, 100, 256, 1000 in four classes x {plain, --quiet, --stub}; (f) nesting depth 2^k up to 4096 and names of 64 KiB; (g) every string of length <= 4 (quick) / <= 5 (thorough) over {(, ), \", a, +, [, ], ., comma, 1} as the argument text of env / envInt / todo chunks; (i) all 64 two-alias tables whose paths begin with aliases x 5 references; (j) input file names (non-ASCII, combining characters, invalid UTF-8, spaces, up to 240 bytes) x 3 contents x 3 ways of naming them; (h) all pairs and triples of the 11 semantic defects of C16 x 4 flag combinations. Oracle: returns, exit status 0 or 1, exit 0 => the output parses as Go, exit != 0 => no output written and (a third of the cases start with a long file at the output path) an existing file untouched; non-trivial = rejected or contains a non-alphanumeric byte; distinct = distinct input",
-		Assumptions: []string{"a hang is one invocation exceeding the 60 s tool watchdog in the worker and in three isolated re-runs; cases slower than 20 s are listed as notes, never as violations", "printer write errors (closed stdout) are outside the input space"},
+		Assumptions: []string{"a hang is one invocation exceeding the 60 s tool watchdog in the worker and in three isolated re-runs; cases slower than 20 s are listed as notes, never as violations", "printer write errors (closed stdout) are outside the input space", "glob patterns that start with / or contain .. are not generated: they match files outside the case directory (devices, /proc), which are not inputs of bounded size"},
 		BudgetQuick: 280 * time.Second, BudgetThorough: 1700 * time.Second,
 		Run: func(w *W) {
 			L, G := 3, 3
@@ -215,6 +215,11 @@ func init() {
 			}
 			// (c) glob patterns
 			words([]string{"*", "?", "[", "]", `\`, "a", "/", ".", "-", "^"}, G, func(x string) {
+				if strings.HasPrefix(x, "/") || strings.Contains(x, "..") {
+					// patterns that leave the case directory match whatever the machine holds (device files, /proc):
+					// those inputs are neither bounded nor under the check's control
+					return
+				}
 				id := fmt.Sprintf("glob/%q", x)
 				w.Case(id, func(c *C) {
 					c.Distinct("all", id)
